@@ -292,6 +292,70 @@ def k_returns(params):
                                                                                                                  "first_error_ladder": list(errs.values())[0] if errs else None})
 
 
+def k_map_history(params):
+    """one CenterManifoldMap object: compute(section A) with configuration c1, assign configuration c2 (its own default section), compute(section B)
+    with other runtime options, then read back both sections -- for every A, B and configuration pair.  Whatever is returned / stored for a
+    section must lie on that section and on the energy level, and equal what a new map object returns for the same request"""
+    cm, H = _cm(params["system"], params["point"], params["N"])
+    h0 = params["energy"]
+    viol = {}
+    n = nt = 0
+
+    def cfg(strategy, section):
+        kw = dict(seed_strategy=strategy, seed_axis=None, integration=_L["IC"](method="fixed"))
+        if section is not None:
+            kw["section_coord"] = section
+        return _L["Cfg"](**kw)
+
+    def opts(n_iter, n_seeds):
+        return _L["Opt"](integration=_L["IO"](dt=2e-2, order=4, max_steps=4000), iteration=_L["ItO"](n_iter=n_iter), seeding=_L["SO"](n_seeds=n_seeds), workers=_L["WO"](n_workers=1))
+
+    def check(r, sec, tag, what):
+        st = np.asarray(r.states, dtype=float)
+        if st.shape[0] == 0:
+            return 0
+        off = float(np.max(np.abs(st[:, SEC_IDX[sec]])))
+        e = max(abs(_Hval(H, s_) - h0) for s_ in st)
+        lab = tuple(r.labels)
+        if off != 0.0:
+            viol.setdefault("map_history/off_section", violation("map_history/off_section", "%s: points are not on %s=0 (max |%s| = %.3e) [%s]" % (what, sec, sec, off, tag), off, 0.0, ("map_history", params)))
+        if lab != PLANE[sec]:
+            viol.setdefault("map_history/labels", violation("map_history/labels", "%s: labels %s, expected %s [%s]" % (what, lab, PLANE[sec], tag), lab, PLANE[sec], ("map_history", params)))
+        if e > 1e-4:
+            viol.setdefault("map_history/energy_level", violation("map_history/energy_level", "%s: max |H_cm - h0| = %.3e [%s]" % (what, e, tag), e, 1e-4, ("map_history", params)))
+        return st.shape[0]
+
+    A = params["first_section"]
+    for s1, s2 in (("axis_aligned", "radial"), ("radial", "axis_aligned"), ("axis_aligned", "axis_aligned")):
+        for c2_section in (None, A):
+            for B in ("q2", "p2", "q3", "p3"):
+                tag = "energy=%g: config(%s, section %s) compute(%s, n_iter=1); config(%s, section %s) compute(%s, n_iter=2)" % (h0, s1, A, A, s2, c2_section or "default", B)
+                try:
+                    pm = _L["Map"](cm, h0)
+                    pm.config = cfg(s1, A)
+                    r1 = pm.compute(section_coord=A, options=opts(1, 4))
+                    pm.config = cfg(s2, c2_section)
+                    r2 = pm.compute(section_coord=B, options=opts(2, 3))
+                    fresh = _L["Map"](cm, h0)
+                    fresh.config = cfg(s2, c2_section)
+                    rf = fresh.compute(section_coord=B, options=opts(2, 3))
+                except Exception as exc:
+                    viol.setdefault("map_history/raises", violation("map_history/raises", "%s: %s [%s]" % (type(exc).__name__, str(exc)[:140], tag), None, None, ("map_history", params)))
+                    continue
+                n += 1
+                nt += check(r1, A, tag, "first result")
+                nt += check(r2, B, tag, "second result")
+                if _rows(r2) != _rows(rf):
+                    viol.setdefault("map_history/differs_from_new_object", violation("map_history/differs_from_new_object", "the second result differs from what a new map object returns for the same request (%d vs %d rows) [%s]" % (
+                        len(_rows(r2)), len(_rows(rf)), tag), len(_rows(r2)), len(_rows(rf)), ("map_history", params)))
+                for sec in {A, B}:
+                    try:
+                        check(pm.get_section(sec), sec, tag, "get_section(%s) afterwards" % sec)
+                    except Exception:
+                        pass
+    return res(evals=n + nt, nontrivial=nt, viol=list(viol.values()), stats={"map_histories": n}, sample={"first_section": A, "histories": n, "points_checked": nt})
+
+
 # ------------------------------------------------------------------ schedules of the thread pool
 def k_sched(params):
     from engine import vexec
@@ -432,7 +496,7 @@ def k_prange(params):
                sample={"section": section, "seeds": len(seeds), "compiled_runs": n, "virtual_schedules": nsch})
 
 
-KINDS = {"engine": k_engine, "returns": k_returns, "sched": k_sched, "sched_one": k_sched_one, "prange": k_prange}
+KINDS = {"map_history": k_map_history, "engine": k_engine, "returns": k_returns, "sched": k_sched, "sched_one": k_sched_one, "prange": k_prange}
 
 
 def cases(tier, seed):
@@ -463,6 +527,8 @@ def cases(tier, seed):
         out.append(("sched", {"system": sysn, "point": Ln, "N": N, "energy": h0, "section": section, "n_workers": 4, "n_iter": 1, "n_seeds": 6, "preemption_bound": 1 if tier == "quick" else 2}))
     for section in ("q3", "p2"):
         out.append(("prange", {"system": sysn, "point": Ln, "N": N, "energy": h0, "section": section}))
+    for section in ("q2", "p2", "q3", "p3"):
+        out.append(("map_history", {"system": sysn, "point": Ln, "N": N, "energy": h0, "first_section": section}))
     return out
 
 
